@@ -4,6 +4,9 @@ pub mod c10;
 pub mod c13;
 pub mod c14;
 pub mod c15;
+pub mod c17;
+pub mod c18;
+pub mod c19;
 
 /// re-execute a recorded replay file natively; exit code 1 if the violation reproduces, 0 if not
 pub fn replay(_prop: &str, _file: &str) -> i32 {
